@@ -631,8 +631,146 @@ func execServerStress(M, callers, per int, seed uint64, withShutdown bool) strin
 	return strings.Join(bad, " ")
 }
 
+// gateReturner is a Returner whose Return can be held open (the RPC layer's Return writes a message: it takes time)
+type gateReturner struct {
+	hold    chan struct{} // nil: Return completes at once
+	entered chan struct{}
+	done    chan struct{}
+	err     error
+	once    sync.Once
+	returns int32
+}
+
+func newGateReturner(hold chan struct{}) *gateReturner {
+	return &gateReturner{hold: hold, entered: make(chan struct{}), done: make(chan struct{})}
+}
+
+func (g *gateReturner) AllocResults(sz capnp.ObjectSize) (capnp.Struct, error) {
+	_, seg, err := capnp.NewMessage(capnp.SingleSegment(nil))
+	if err != nil {
+		return capnp.Struct{}, err
+	}
+	return capnp.NewStruct(seg, sz)
+}
+
+func (g *gateReturner) Return(e error) {
+	atomic.AddInt32(&g.returns, 1)
+	g.once.Do(func() {
+		g.err = e
+		close(g.entered)
+		if g.hold != nil {
+			<-g.hold
+		}
+		close(g.done)
+	})
+}
+
+// execServerFailWindow: "server failwindow <queued>": a call delivered through Server.Recv acknowledges, <queued>
+// calls are pipelined on it, then it fails.  While the Return of the failed call (queued = 0) or of the first rejected
+// queued call (queued > 0) is still in progress, one more call is pipelined on that answer.  Every pipelined call must
+// complete exactly once, with the base call's error, in bounded time.
+func execServerFailWindow(queued int) string {
+	fail := make(chan struct{})
+	srv := server.New([]server.Method{{
+		Method: srvMethod,
+		Impl: func(ctx context.Context, call *server.Call) error {
+			call.Ack()
+			<-fail
+			return errImplFail
+		},
+	}}, nil, nil, nil)
+	defer srv.Shutdown()
+	other := capnp.Method{InterfaceID: 0xfeedbeef12345679, MethodID: 0}
+	recv := func(m capnp.Method, ret capnp.Returner) capnp.Recv {
+		_, seg, _ := capnp.NewMessage(capnp.SingleSegment(nil))
+		args, _ := capnp.NewStruct(seg, capnp.ObjectSize{DataSize: 8})
+		return capnp.Recv{Method: m, Args: args, ReleaseArgs: func() {}, Returner: ret}
+	}
+	wait := func(g *gateReturner, what string) string {
+		select {
+		case <-g.done:
+		case <-time.After(3 * time.Second):
+			return what + "-never-completes"
+		}
+		if n := atomic.LoadInt32(&g.returns); n != 1 {
+			return what + "-returned-" + strconv.Itoa(int(n)) + "-times"
+		}
+		if g.err == nil || !strings.Contains(g.err.Error(), "implfail") {
+			return what + "-error-is-not-the-base-call's"
+		}
+		return ""
+	}
+	hold := make(chan struct{})
+	var baseRet, windowRet *gateReturner
+	var qrets []*gateReturner
+	var windowPC capnp.PipelineCaller
+	if queued == 0 {
+		baseRet = newGateReturner(hold)
+	} else {
+		baseRet = newGateReturner(nil)
+	}
+	pc := srv.Recv(context.Background(), recv(srvMethod, baseRet))
+	if pc == nil {
+		return "no-pipeline-caller"
+	}
+	windowPC = pc
+	for i := 0; i < queued; i++ {
+		var g *gateReturner
+		if i == 0 {
+			g = newGateReturner(hold)
+		} else {
+			g = newGateReturner(nil)
+		}
+		qrets = append(qrets, g)
+		p1 := pc.PipelineRecv(context.Background(), nil, recv(other, g))
+		if i == 0 {
+			windowPC = p1
+		}
+	}
+	close(fail)
+	first := baseRet
+	if queued > 0 {
+		first = qrets[0]
+	}
+	select {
+	case <-first.entered:
+	case <-time.After(3 * time.Second):
+		close(hold)
+		return "failure-not-delivered"
+	}
+	res := ""
+	if windowPC == nil {
+		res = "queued-call-got-no-pipeline-caller"
+	} else {
+		windowRet = newGateReturner(nil)
+		ctx, cancel := context.WithTimeout(context.Background(), 2*time.Second)
+		windowPC.PipelineRecv(ctx, nil, recv(other, windowRet))
+		res = wait(windowRet, "call-pipelined-during-the-failed-return")
+		cancel()
+	}
+	close(hold)
+	if r := wait(baseRet, "base-call"); res == "" && r != "" {
+		res = r
+	}
+	for _, g := range qrets {
+		if r := wait(g, "queued-call"); res == "" && r != "" {
+			res = r
+		}
+	}
+	if res == "" {
+		return "ok"
+	}
+	return res
+}
+
 func execServer(f []string) string {
 	switch f[0] {
+	case "failwindow":
+		if len(f) != 2 {
+			return "bad-op"
+		}
+		n, _ := strconv.Atoi(f[1])
+		return execServerFailWindow(n)
 	case "script":
 		if len(f) != 4 {
 			return "bad-op"
@@ -654,6 +792,11 @@ func execServer(f []string) string {
 }
 
 func genC12(rec *lib.Rec, r *lib.Rng, thorough bool) {
+	if Shard == 0 {
+		for q := 0; q <= 3; q++ {
+			rec.Op("S", "server failwindow "+strconv.Itoa(q), true)
+		}
+	}
 	n := 240
 	if thorough {
 		n = 6000
